@@ -822,6 +822,9 @@ def compare(ctx, cases, drv):
         if refused_composite(c, r):
             ctx.count("composite_over_an_exploding_operand", "refused by Splink (documented)")
             continue
+        if c["engine"] == "spark" and core.timed_out(r):
+            ctx.count("excluded", "spark: no answer within the time limit / JVM heap exhausted")
+            continue
         if core.impl_error(r):
             ctx.count("impl_error", r["__error__"])
             problems.append((c, f"real code raised {r['__error__']}: {r['text'][:300]} ... {r['text'][-400:] if len(r['text']) > 700 else ''}", True))
